@@ -155,18 +155,72 @@ Ltac bcases := repeat (bcase1; bproj; cbn beta iota zeta).
 Ltac unfold_ctl :=
   unfold step, loop_once, loop_up, read_pending, refused_connack, failed, rc_handle, write_disconnect, do_reconnect in *.
 
+Ltac fin_rank :=
+  frames; unfold lrank; bproj; cbn [length];
+  repeat match goal with H : b_sock _ = _ |- _ => rewrite H | H : b_script _ = _ |- _ => rewrite H end;
+  bproj; cbn [length]; try lia; bcases; try lia.
+
 Lemma step_decreases cfg p s : is_done p = false ->
   (rank (st_pc (step cfg p s)) (st_st (step cfg p s)) < rank p s)%nat.
 Proof.
   intros Hd. destruct s as [nw dl cs sk p3 tm oq sc n ac]. unfold rank.
-  destruct p; try discriminate; unfold_ctl; bproj.
-  - bcases; frames; unfold lrank; bproj; cbn [length];
-      repeat match goal with H : _ = _ |- _ => rewrite H end; bproj; cbn [length]; try lia; bcases; lia.
-  - bcases; frames; unfold lrank; bproj; cbn [length];
-      repeat match goal with H : b_sock _ = _ |- _ => rewrite H | H : b_script _ = _ |- _ => rewrite H end;
-      bproj; cbn [length]; try lia; bcases; try lia.
-  - bcases; frames; unfold lrank; bproj; cbn [length]; lia.
-  - bcases; frames; unfold lrank; bproj; cbn [length];
-      repeat match goal with H : b_sock _ = _ |- _ => rewrite H | H : b_script _ = _ |- _ => rewrite H end;
-      bproj; cbn [length]; try lia.
+  destruct p; try discriminate; unfold_ctl; bproj; bcases; fin_rank.
 Qed.
+
+Lemma run_done cfg : forall fuel p s, (rank p s < fuel)%nat ->
+  is_done (fst (snd (run fuel cfg p s))) = true.
+Proof.
+  induction fuel as [|fuel IH]; intros p s Hr; [lia|].
+  rewrite run_S. destruct (is_done p) eqn:Ed; [exact Ed|]. cbn [fst snd].
+  apply IH. pose proof (step_decreases cfg p s Ed). lia.
+Qed.
+
+Lemma run_script_done cfg t0 script :
+  is_done (fst (snd (run_script cfg t0 script))) = true.
+Proof.
+  unfold run_script. apply run_done. unfold rank, fuel_for, binit. bproj. cbn [lrank]. lia.
+Qed.
+
+(* ------------------------------------------------------------------ full specs used by the trace invariants *)
+
+Lemma reconnect_wait_spec cfg s s1 e1 : reconnect_wait cfg s = (s1, e1) ->
+  b_delay s1 = Some (next_delay cfg (b_delay s)) /\ b_sock s1 = b_sock s /\ b_p311 s1 = b_p311 s /\
+  b_script s1 = b_script s /\ b_n s1 = b_n s /\
+  ((should_exit s = true /\ s1 = set_delay (Some (next_delay cfg (b_delay s))) s /\
+    e1 = [EvWait (b_now s) (next_delay cfg (b_delay s)) 0])
+   \/ (should_exit s = false /\
+       s1 = set_now (b_now s + Z.max 0 (next_delay cfg (b_delay s))) (set_delay (Some (next_delay cfg (b_delay s))) s) /\
+       e1 = [EvWait (b_now s) (next_delay cfg (b_delay s)) (Z.max 0 (next_delay cfg (b_delay s)))])
+   \/ (should_exit s = false /\ exists j k, 1 <= j <= next_delay cfg (b_delay s) /\ b_now s1 = b_now s + j /\
+       acted_from s s1 /\ e1 = [EvWait (b_now s) (next_delay cfg (b_delay s)) j; EvAct (b_now s + j) k])).
+Proof.
+  intros H. pose proof (wait_frame cfg s s1 e1 H) as (W1 & W2 & W3 & W4 & W5).
+  split; [exact W5|]. split; [exact W1|]. split; [exact W3|]. split; [exact W2|]. split; [exact W4|].
+  clear W1 W2 W3 W4 W5. revert H. unfold reconnect_wait.
+  set (d := next_delay cfg (b_delay s)).
+  assert (Hse : should_exit (set_delay (Some d) s) = should_exit s) by reflexivity. rewrite Hse.
+  destruct (should_exit s) eqn:Ese.
+  - intros H. inv H. left. repeat split; reflexivity.
+  - destruct (wants_wait _ _ _) as [[j k]|] eqn:W; intros H; inv H.
+    + right; right. split; [reflexivity|].
+      unfold wants_wait in W. bproj. destruct (b_acted s) eqn:Ea; [discriminate|].
+      destruct (c_act cfg) as [a|]; [|discriminate]. destruct (a_place a); try discriminate.
+      destruct ((a_attempt a =? b_n s - 1) && (1 <=? chunk) && (chunk <=? d)) eqn:Ec; [|discriminate].
+      injection W as Hj Hk. subst chunk k.
+      exists j, (a_kind a). split; [lia|].
+      destruct (apply_act_spec (a_kind a) (set_now (b_now s + j) (set_delay (Some d) s)) Ea) as ((F1 & _) & A).
+      bproj. split; [exact F1|]. split; [|reflexivity].
+      unfold acted_from in *. bproj. unfold should_exit in *. bproj. exact A.
+    + right; left. repeat split; reflexivity.
+Qed.
+
+(* case-split every callback / wait equation in the context, then name the new state's fields *)
+Ltac cb_split :=
+  repeat match goal with
+  | H : callback _ _ _ _ = (_, _) |- _ =>
+      apply callback_spec in H; unfold same_conn in H; bproj;
+      destruct H as ((? & ? & ? & ? & ? & ?) & [(? & ?)|(? & ? & ?)])
+  | H : reconnect_wait _ _ = (_, _) |- _ =>
+      apply reconnect_wait_spec in H; bproj;
+      destruct H as (? & ? & ? & ? & ? & [(? & ? & ?)|[(? & ? & ?)|(? & ? & ? & ? & ? & ? & ?)]])
+  end.
